@@ -110,7 +110,7 @@ def run(tier, seed, drv):
         for b in ("sync", "held"):
             sd = rng.randrange(1 << 30)
             rb = run_scenario(scn, bus=b, seed=sd)
-            SC.check_run(scn, rb, drv, res, monitors_on=("adapters", "ticker"), corr=("sim",), case_extra={"bus": b})
+            SC.check_run(scn, rb, drv, res, monitors_on=("adapters", "ticker"), corr=("ticker",), case_extra={"bus": b})
             tid = monitors.master_tid(rb)
             t_end = max([e["time"] for e in rb["trace"].of("t-done") if e["tid"] == tid], default=0)
             for label, ext in extensions(rng, scn):
